@@ -1,6 +1,6 @@
 // Kani unit c_framing (C15): libjsonnet's list encodings -- multi_to_raw (file name / content pairs of *_multi) and stream_to_raw
-// (documents of *_stream): "a sequence of strings separated by \0, terminated with \0\0" (bindings/c/libjsonnet.h), and val_to_multi /
-// val_to_stream shapes are not under contract here.
+// (documents of *_stream): "a sequence of strings separated by \0, terminated with \0\0" (bindings/c/libjsonnet.h); val_to_multi /
+// val_to_stream: which fields / elements of the result are manifested (the VISIBLE fields, as `jrsonnet -m` and the library do).
 #![allow(unused, dead_code)]
 use std::os::raw::c_char;
 
@@ -10,6 +10,46 @@ pub type IStr = &'static str;
 // ---------------------------------------------------------------- extracted real code
 //@item bindings/jsonnet/src/lib.rs :: fn multi_to_raw
 //@item bindings/jsonnet/src/lib.rs :: fn stream_to_raw
+
+// ---------------------------------------------------------------- val_to_multi / val_to_stream over a scripted object / array
+pub mod shapes {
+    pub type IStr = &'static str;
+    #[derive(Debug)] pub struct Error;
+    pub type Result<T> = core::result::Result<T, Error>;
+    macro_rules! bail { ($l:literal) => { return Err(Error) }; }
+    pub trait ManifestFormat {}
+    pub struct Json; impl ManifestFormat for Json {}
+    #[derive(Clone, Copy, Debug, PartialEq)]
+    pub enum Val { Num(u8), Func, Obj(ObjValue), Arr(ArrValue) }
+    impl Val {
+        /// contract of Val::manifest: text of the value; a function cannot be manifested
+        pub fn manifest(&self, _f: &dyn ManifestFormat) -> Result<&'static str> { match self { Val::Num(1) => Ok("m1"), Val::Num(2) => Ok("m2"), Val::Num(_) => Ok("m?"), _ => Err(Error) } }
+    }
+    /// object { a: 1, h:: function, b: 2 }  (h hidden: a helper that cannot be manifested)
+    #[derive(Clone, Copy, Debug, PartialEq)] pub struct ObjValue;
+    const FIELDS: [(&str, bool, Val); 3] = [("a", true, Val::Num(1)), ("b", true, Val::Num(2)), ("h", false, Val::Func)];
+    pub struct FieldIter { i: usize, hidden: bool }
+    impl Iterator for FieldIter { type Item = (IStr, Result<Val>); fn next(&mut self) -> Option<Self::Item> { while self.i < 3 { let f = FIELDS[self.i]; self.i += 1; if f.1 || self.hidden { return Some((f.0, Ok(f.2))); } } None } }
+    pub struct NameIter { i: usize, hidden: bool }
+    impl Iterator for NameIter { type Item = IStr; fn next(&mut self) -> Option<IStr> { while self.i < 3 { let f = FIELDS[self.i]; self.i += 1; if f.1 || self.hidden { return Some(f.0); } } None } }
+    impl ObjValue {
+        pub fn iter(&self) -> FieldIter { FieldIter { i: 0, hidden: false } }              // visible fields, sorted
+        pub fn fields_ex(&self, include_hidden: bool) -> Vec<IStr> { NameIter { i: 0, hidden: include_hidden }.collect() }
+        pub fn fields(&self) -> Vec<IStr> { self.fields_ex(false) }
+        pub fn len(&self) -> usize { 2 }
+        pub fn get(&self, k: IStr) -> Result<Option<Val>> { let mut i = 0; while i < 3 { if FIELDS[i].0.as_ptr() == k.as_ptr() { return Ok(Some(FIELDS[i].2)); } i += 1; } Ok(None) }
+        pub fn get_or_bail(&self, k: IStr) -> Result<Val> { match self.get(k)? { Some(v) => Ok(v), None => Err(Error) } }
+    }
+    /// array [1, 2] or, with `bad`, [1, function]
+    #[derive(Clone, Copy, Debug, PartialEq)] pub struct ArrValue { pub bad: bool }
+    pub struct ArrIter { i: usize, bad: bool }
+    impl Iterator for ArrIter { type Item = Result<Val>; fn next(&mut self) -> Option<Result<Val>> { self.i += 1; match self.i { 1 => Some(Ok(Val::Num(1))), 2 => Some(Ok(if self.bad { Val::Func } else { Val::Num(2) })), _ => None } } }
+    impl ArrValue { pub fn iter(&self) -> ArrIter { ArrIter { i: 0, bad: self.bad } } pub fn len(&self) -> usize { 2 } }
+//@item bindings/jsonnet/src/lib.rs :: fn val_to_multi ;; keep-pub
+//@item bindings/jsonnet/src/lib.rs :: fn val_to_stream ;; keep-pub
+    pub fn multi(v: Val) -> Result<Vec<(IStr, IStr)>> { val_to_multi(v, &Json) }
+    pub fn stream(v: Val) -> Result<Vec<IStr>> { val_to_stream(v, &Json) }
+}
 
 #[cfg(kani)]
 mod harness {
@@ -28,5 +68,21 @@ mod harness {
         assert!(is(stream_to_raw(vec![]), b"\0\0"), "obligation: an empty stream is the bare terminator");
         assert!(is(stream_to_raw(vec!["x"]), b"x\0\0"), "obligation: one document: text NUL NUL");
         assert!(is(stream_to_raw(vec!["x", "yz", "w"]), b"x\0yz\0w\0\0"), "obligation: documents are separated by NUL and the list ends with NUL NUL");
+    }
+    #[kani::proof] #[kani::unwind(6)]
+    fn h_val_to_multi() {
+        use shapes::*;
+        match multi(Val::Obj(ObjValue)) {
+            Ok(v) => { assert!(v.len() == 2 && v[0] == ("a", "m1") && v[1] == ("b", "m2"), "obligation: the multi result is the manifestation of each VISIBLE field of the top-level object, in field order (hidden helpers are not output files)"); std::mem::forget(v); }
+            Err(_) => panic!("obligation: an object whose visible fields manifest is a valid multi result, whatever its hidden fields hold"),
+        }
+        assert!(multi(Val::Num(1)).is_err() && multi(Val::Arr(ArrValue { bad: false })).is_err(), "obligation: a non-object result is an error for *_multi");
+    }
+    #[kani::proof] #[kani::unwind(6)]
+    fn h_val_to_stream() {
+        use shapes::*;
+        match stream(Val::Arr(ArrValue { bad: false })) { Ok(v) => { assert!(v.len() == 2 && v[0] == "m1" && v[1] == "m2", "obligation: the stream result is the manifestation of every element, in order"); std::mem::forget(v); } Err(_) => panic!("obligation: an array of manifestable values is a valid stream result") }
+        assert!(stream(Val::Arr(ArrValue { bad: true })).is_err(), "obligation: an element that cannot be manifested makes the call fail");
+        assert!(stream(Val::Obj(ObjValue)).is_err() && stream(Val::Num(1)).is_err(), "obligation: a non-array result is an error for *_stream");
     }
 }
